@@ -631,6 +631,10 @@ func setExclusive(r *Rng) []mutation {
 		for _, b := range exps {
 			mk("set-expire-twice", a, "10", b, "20")
 			mk("set-expire-twice", a, "9223372036854775807", b, "20")
+			// first values whose conversion to a time.Duration wraps to zero, to a negative or to a small positive value
+			for _, wrap := range []string{"36028797018963968", "72057594037927936", "288230376151711744", "4611686018427387904", "9223372037", "18446744074", "9223372036854776", "18446744073709552"} {
+				mk("set-expire-twice", a, wrap, b, "20")
+			}
 			mk("set-expire-twice", a, "10", "NX", b, "20")
 		}
 		for _, n := range []string{"0", "-1", "-9223372036854775808"} {
